@@ -162,8 +162,9 @@ def _run(case, num, I, M):
             return obj
         return NS(has_value=lambda: True, get=get)
     d = lambda c: [num(fr(v)) for v in case["data"][str(c)]]
-    mgr._battery_caches = {b: cache(b, NS(component_id=b, capacity=num(F(1)), soc=num(F(50)), soc_lower_bound=num(F(0)),
-                                         soc_upper_bound=num(F(100)), power_inclusion_lower_bound=d(b)[0],
+    sd = lambda b: [num(fr(v)) for v in case.get("soc", {}).get(str(b), [[1, 1], [0, 1], [100, 1], [50, 1]])]  # capacity, lower, upper, soc
+    mgr._battery_caches = {b: cache(b, NS(component_id=b, capacity=sd(b)[0], soc=sd(b)[3], soc_lower_bound=sd(b)[1],
+                                         soc_upper_bound=sd(b)[2], power_inclusion_lower_bound=d(b)[0],
                                          power_exclusion_lower_bound=d(b)[1], power_exclusion_upper_bound=d(b)[2],
                                          power_inclusion_upper_bound=d(b)[3]))
                            for b in mgr._bat_invs_map}
@@ -172,6 +173,8 @@ def _run(case, num, I, M):
                                            active_power_inclusion_upper_bound=d(i)[3]))
                             for ii in mgr._bat_invs_map.values() for i in ii}
     mgr._component_pool_status_tracker = NS(get_working_components=lambda ids: set(working) & set(ids))
+    mgr._power_distributor_exponent = 1.0
+    mgr._distribution_algorithm = I.BatteryDistributionAlgorithm(1.0)
     pool = set(mgr._bat_invs_map)
     pairs = mgr._get_components_data(pool)
     mgroups = []
@@ -192,10 +195,13 @@ def _run(case, num, I, M):
     alg = I.BatteryDistributionAlgorithm(1.0)
     avail = {p.battery.component_id: num(F(50)) for p in pairs}
     mp = []
-    for supply in (False, True):
-        _, excl = alg._inclusion_exclusion_bounds(pairs, supply=supply)
-        ratios, _ = alg._compute_battery_availability_ratio(pairs, avail, excl)
-        mp.append(sum(r.min_power for r in ratios))
+    try:
+        for supply in (False, True):
+            _, excl = alg._inclusion_exclusion_bounds(pairs, supply=supply)
+            ratios, _ = alg._compute_battery_availability_ratio(pairs, avail, excl)
+            mp.append(sum(r.min_power for r in ratios))
+    except ValueError:      # "All given batteries have no capacity": the algorithm has no minimum powers to report
+        mp = [None, None]
     out["min_up"], out["min_down"] = mp
 
     def ask(p):
@@ -205,6 +211,25 @@ def _run(case, num, I, M):
             r = mgr._check_request(I.Request(power=P, component_ids=pool, adjust_power=adj), pairs)
             res[name] = "ok" if r is None else ("oob" if isinstance(r, I.OutOfBounds) else "error")
         return res
+
+    def enter(p):
+        """the manager's entry point before the API calls: BatteryManager._get_distribution(request)
+        (= _get_components_data + _check_request + the distribution); judged on the RESULT TYPE"""
+        from frequenz.sdk.microgrid._power_distributing._distribution_algorithm import DistributionResult
+        res = {}
+        for name, adj in (("adj", True), ("noadj", False)):
+            coro = mgr._get_distribution(I.Request(power=I.Power.from_watts(num(p)), component_ids=pool, adjust_power=adj))
+            try:
+                coro.send(None)
+                raise RuntimeError("_get_distribution suspended")
+            except StopIteration as stop:
+                r = stop.value
+            if isinstance(r, DistributionResult):
+                res[name], res["rem_" + name] = "dist", r.remaining_power
+            else:
+                res[name], res["rem_" + name] = ("oob" if isinstance(r, I.OutOfBounds) else "error"), 0
+        return res
+    ask.enter = enter
     return out, ask
 
 
@@ -258,10 +283,12 @@ def run_case(case):
     adv = None if ex["adv"] is None else [tofr(v) for v in ex["adv"]]
     enf = [tofr(v) for v in ex["enf"]]
     obs["enf"] = [enc(v) for v in enf]
-    obs["min_up"], obs["min_down"] = enc(tofr(ex["min_up"])), enc(tofr(ex["min_down"]))
+    has_mp = ex["min_up"] is not None
+    obs["min_up"], obs["min_down"] = (enc(tofr(ex["min_up"])), enc(tofr(ex["min_down"]))) if has_mp else (None, None)
     if not all(near(a, F(b)) for a, b in zip(enf, fl["enf"])):
         dev.append("enf")
-    if not (near(tofr(ex["min_up"]), F(fl["min_up"])) and near(tofr(ex["min_down"]), F(fl["min_down"]))):
+    if (fl["min_up"] is None) != (not has_mp) or (has_mp and not (
+            near(tofr(ex["min_up"]), F(fl["min_up"])) and near(tofr(ex["min_down"]), F(fl["min_down"])))):
         dev.append("min_power")
     probes = []
     for p in probe_values(case, adv, enf):
@@ -274,8 +301,25 @@ def run_case(case):
                 dev.append(f"verdict at {p}: exact {r} float {rf}")
         probes.append({"p": enc(p), **r})
     obs["probes"] = probes
+    # requests through the manager's real entry point, both values of adjust_power, for powers inside the
+    # advertised bounds (bounds first: they head the probe list) and two outside
+    entries = []
+    if adv is not None:
+        il, el, eu, iu = adv
+        inside = [p for p in probe_values(case, adv, enf) if il <= p <= iu and (p <= el or p >= eu)]
+        outside = [p for p in probe_values(case, adv, enf) if not (il <= p <= iu and (p <= el or p >= eu))]
+        for p in inside[:10] + outside[:2]:
+            r = ask.enter(p)
+            entries.append({"p": enc(p), "adj": r["adj"], "noadj": r["noadj"],
+                            "rem_adj": enc(tofr(r["rem_adj"])) if not _nan(r["rem_adj"]) else "nan",
+                            "rem_noadj": enc(tofr(r["rem_noadj"])) if not _nan(r["rem_noadj"]) else "nan"})
+    obs["entries"] = entries
     obs["float"] = dev
     return obs
+
+
+def _nan(v):
+    return isinstance(v, float) and v != v
 
 
 # ----------------------------------------------------------------------------- oracle
@@ -366,7 +410,14 @@ def oracle_c17(case, obs):
     if not (enf[2] <= eu and el <= enf[1]):
         hit(f"excl: enforced exclusion bounds ({enf[1]}, {enf[2]}) are not inside the advertised ({el}, {eu})")
     mu, mdn = fr(obs["min_up"]), fr(obs["min_down"])
-    wfi = wf_inverters(case)
+    for en in obs.get("entries", []):
+        p = fr(en["p"])
+        if il <= p <= iu and (p <= el or p >= eu):
+            for mode in ("adj", "noadj"):
+                if en[mode] == "oob":
+                    hit(f"reject: power {p} is inside the advertised bounds incl=({il}, {iu}) excl=({el}, {eu}) but the manager's "
+                        f"_get_distribution(adjust_power={mode == 'adj'}) answered OutOfBounds (enforced {tuple(str(v) for v in enf)})")
+    wfi = wf_inverters(case) and mu is not None
     for pr in obs["probes"]:
         p = fr(pr["p"])
         inside = il <= p <= iu and (p <= el or p >= eu)
@@ -418,17 +469,25 @@ Definition opt4_eqb (a : option pb) (b : option (Q * Q * Q * Q)) : bool :=
     as the distribution algorithm stores them, probes: (power, (expected `in SystemBounds`,
     (accepted with adjust_power, accepted without)))) *)
 Definition check (c : list group * option (Q * Q * Q * Q)
-                      * option (list igroup * (Q * Q * Q * Q) * (Q * Q) * list (Q * (bool * (bool * bool))))) : bool :=
+                      * option (list igroup * (Q * Q * Q * Q) * option (Q * Q) * list (Q * (bool * (bool * bool)))
+                                * list (Q * (Q * Q) * (bool * bool)))) : bool :=
   let '(gs, eadv, m) := c in
   let adv := advertised gs in
   opt4_eqb adv eadv &&
   match m with
   | None => true
-  | Some (igs, eenf, (mu, md), probes) =>
+  | Some (igs, eenf, mp, probes, entries) =>
     let ps := map pair_of (map cg_of igs) in
     let enf := enforced ps in
     t4_eqb enf eenf &&
-    Qeq_bool (min_power_keyed true (map ipair_of igs)) mu && Qeq_bool (min_power_keyed false (map ipair_of igs)) md &&
+    match mp with
+    | Some (mu, md) => Qeq_bool (min_power_keyed true (map ipair_of igs)) mu && Qeq_bool (min_power_keyed false (map ipair_of igs)) md
+    | None => true     (* total capacity 0: the algorithm raises before computing minimum powers *)
+    end &&
+    (* _get_distribution: (power, (remainder with / without adjust_power), (distributed with / without)) *)
+    forallb (fun q => let '(p, (ra, rn), (a, n)) := q in
+               Bool.eqb (dist_kind_ok (get_distribution_kind true enf p ra)) a &&
+               Bool.eqb (dist_kind_ok (get_distribution_kind false enf p rn)) n) entries &&
     forallb (fun q => let '(p, (c, (a, n))) := q in
                Bool.eqb (adv_contains adv p) c && Bool.eqb (check_request true enf p) a &&
                Bool.eqb (check_request false enf p) n) probes
@@ -450,8 +509,12 @@ def case_term(case, obs):
     probes = "[" + "; ".join(
         f"({cQ(fr(pr['p']))}, ({cbool(bool(pr['contains']))}, ({cbool(pr['adj'] == 'ok')}, {cbool(pr['noadj'] == 'ok')})))"
         for pr in obs["probes"]) + "]"
-    mp = f"({cQ(fr(obs['min_up']))}, {cQ(fr(obs['min_down']))})"
-    return f"({gs}, {eadv}, Some ({cgs}, {c_tuple4(obs['enf'])}, {mp}, {probes}))"
+    mp = "None" if obs["min_up"] is None else f"(Some ({cQ(fr(obs['min_up']))}, {cQ(fr(obs['min_down']))}))"
+    rq = lambda v: cQ(F(0)) if v == "nan" else cQ(fr(v))
+    entries = "[" + "; ".join(
+        f"({cQ(fr(en['p']))}, ({rq(en['rem_adj'])}, {rq(en['rem_noadj'])}), ({cbool(en['adj'] == 'dist')}, {cbool(en['noadj'] == 'dist')}))"
+        for en in obs.get("entries", []) if "error" not in (en["adj"], en["noadj"])) + "]"
+    return f"({gs}, {eadv}, Some ({cgs}, {c_tuple4(obs['enf'])}, {mp}, {probes}, {entries}))"
 
 
 # ----------------------------------------------------------------------------- generation
@@ -518,7 +581,21 @@ def gen_case(rng):
                 data[str(c)][rng.randrange(4)] = None
     working = [b for b in bats if rng.random() < 0.85]
     ds = [enc(rng.choice([F(1, 1024), F(1, 1000), F(1, 10 ** 6)])), enc(rng.choice([F(1), F(1, 2), F(17)]))]
-    return {"bats": bats, "edges": edges, "extra_pred": extra, "data": data, "absent": absent, "working": sorted(working), "deltas": ds}
+    # capacity / SoC data of the batteries as the manager sees them: exactly on / beyond an SoC bound,
+    # capacity exactly 0 or tiny, whole sets without capacity next to normal ones
+    soc = {}
+    for b in bats:
+        lo, hi = rng.choice([F(0), F(10), F(20)]), rng.choice([F(80), F(90), F(100)])
+        r = rng.random()
+        cap = F(0) if r < 0.08 else (F(1, 10 ** 12) if r < 0.11 else rng.choice([F(1), F(10), F(100), F(5, 2)]))
+        sv = rng.choice([lo - 5, lo, lo, lo + 1, F(50), hi - 1, hi, hi, hi + 5])
+        soc[str(b)] = [enc(cap), enc(lo), enc(hi), enc(sv)]
+    for bs, _ in made:
+        if rng.random() < 0.08:
+            for b in bs:
+                soc[str(b)][0] = enc(F(0))
+    return {"bats": bats, "edges": edges, "extra_pred": extra, "data": data, "absent": absent, "working": sorted(working),
+            "deltas": ds, "soc": soc}
 
 
 def boundary_cases():
@@ -540,6 +617,20 @@ def boundary_cases():
                 "data": {"1": E(-1000, -50, 200, 1000), "2": E(-1000, -200, 50, 1000), "3": E(-3000, 0, 0, 3000),
                          "4": E(-1000, -50, 50, 1000), "5": E(-1000, -10, 10, 1000)},
                 "absent": [], "working": [1, 2, 4], "deltas": [[1, 1000], [1, 1]]})
+    # a battery exactly on its upper SoC bound next to a normal one: charging near the inclusion bound leaves a rest
+    out.append({"bats": [1, 3], "edges": [[2, 1], [4, 3]], "extra_pred": [],
+                "data": {"1": E(-1000, -50, 50, 1000), "2": E(-1000, 0, 0, 1000), "3": E(-1000, -50, 50, 1000), "4": E(-1000, 0, 0, 1000)},
+                "soc": {"1": [[10, 1], [10, 1], [90, 1], [90, 1]], "3": [[10, 1], [10, 1], [90, 1], [50, 1]]},
+                "absent": [], "working": [1, 3], "deltas": [[1, 1000], [1, 1]]})
+    # a set whose batteries report capacity 0.0 (complete data, non-zero bounds) next to a normal set
+    out.append({"bats": [1, 3], "edges": [[2, 1], [4, 3]], "extra_pred": [],
+                "data": {"1": E(-600, -20, 20, 600), "2": E(-700, 0, 0, 700), "3": E(-1500, -50, 50, 1500), "4": E(-1600, 0, 0, 1600)},
+                "soc": {"1": [[0, 1], [10, 1], [90, 1], [50, 1]], "3": [[10, 1], [10, 1], [90, 1], [50, 1]]},
+                "absent": [], "working": [1, 3], "deltas": [[1, 1000], [1, 1]]})
+    # one battery behind two inverters with exclusion bounds
+    out.append({"bats": [1], "edges": [[2, 1], [3, 1]], "extra_pred": [],
+                "data": {"1": E(-1000, -100, 100, 1000), "2": E(-600, -80, 80, 600), "3": E(-600, -90, 90, 600)},
+                "absent": [], "working": [1], "deltas": [[1, 1000], [1, 1]]})
     # nothing working / no data
     out.append({"bats": [1], "edges": [[2, 1]], "extra_pred": [], "data": {"1": E(-10, 0, 0, 10), "2": E(-10, 0, 0, 10)},
                 "absent": [], "working": [], "deltas": [[1, 1]]})
@@ -559,6 +650,8 @@ def shrink_case(case):
             yield {**case, "bats": [x for x in case["bats"] if x != b], "edges": edges,
                    "working": [x for x in case["working"] if x != b],
                    "extra_pred": [e for e in case.get("extra_pred", []) if e[1] != b]}
+    if case.get("soc"):
+        yield {k: v for k, v in case.items() if k != "soc"}
     for i in inverters_of(case):
         edges = [e for e in case["edges"] if e[0] != i]
         if edges:
@@ -584,8 +677,8 @@ def shrink_case(case):
 class PoolBoundsStream(Stream):
     name = "bounds"
     coq_header = HEADER
-    n_quick = 800
-    n_thorough = 12000
+    n_quick = 600
+    n_thorough = 10000
 
     def gen(self, rng, tier):
         yield from boundary_cases()
@@ -606,7 +699,7 @@ class PoolBoundsStream(Stream):
         t = None if "error" in obs else case_term(case, obs)
         if t is None:
             return None
-        return (f"let '(gs, _, m) := {t} in (advertised gs, match m with Some (igs, _, _, probes) => "
+        return (f"let '(gs, _, m) := {t} in (advertised gs, match m with Some (igs, _, _, probes, _) => "
                 f"let cgs := map cg_of igs in "
                 f"Some (enforced (map pair_of cgs), min_power_keyed true (map ipair_of igs), "
                 f"min_power_keyed false (map ipair_of igs), "
@@ -661,6 +754,18 @@ class PoolBoundsStream(Stream):
             out.append("overlapping_battery_sets")
         if set(case["working"]) != set(case["bats"]):
             out.append("some_not_working")
+        socd = case.get("soc", {})
+        if any(fr(v[0]) == 0 for v in socd.values()):
+            out.append("battery_with_capacity_0")
+        if any(g["bats"] and all(str(b) in socd and fr(socd[str(b)][0]) == 0 for b in g["bats"]) for g in obs.get("mgr_groups", [])):
+            out.append("working_set_with_total_capacity_0")
+        if any(fr(v[3]) <= fr(v[1]) or fr(v[3]) >= fr(v[2]) for v in socd.values()):
+            out.append("battery_on_or_beyond_soc_bound")
+        for en in obs.get("entries", []):
+            for mode in ("adj", "noadj"):
+                out.append(f"entry_{mode}_{en[mode]}")
+                if en[mode] == "dist" and en["rem_" + mode] not in ([0, 1], "nan"):
+                    out.append(f"entry_{mode}_distributed_with_remainder")
         if obs.get("enf") is not None and obs["adv"] is not None:
             adv, enf = [fr(v) for v in obs["adv"]], [fr(v) for v in obs["enf"]]
             if enf[2] < adv[2] or adv[1] < enf[1]:
